@@ -222,7 +222,22 @@ func checkC11(c *core.Ctx) {
 				vargs = append(append([]string{}, args...), "--debug")
 				f["debug"] = true
 			}
-			got := run(c, []byte(vt), vargs...)
+			var got *runner.Result
+			if v == 1 && i%3 == 0 {
+				// one member is typed on a terminal, an empty (or blank) line after every chord: the text ends at the
+				// end-of-file key, not at an empty line
+				typed := joinTokensSep(bt.Tokens, []string{"\n\n", "\n \n", "\n\n\n"}[i/3%3]) + "\n"
+				if tr := grammar.Tokenize([]byte(typed)); !tr.LexErr && sameTokens(normTokens(tr.Tokens), normTokens(bt.Tokens)) && runner.PtyTypable([]byte(typed)) && !texts[typed] {
+					delete(texts, vt)
+					vt = typed
+					texts[vt] = true
+					got = c.Crd.Run(runner.Opt{Stdin: []byte(vt), StdinKind: "pty"}, vargs...)
+					f["typed"] = true
+				}
+			}
+			if got == nil {
+				got = run(c, []byte(vt), vargs...)
+			}
 			c.Eval(1)
 			if infra(c, got) {
 				return
@@ -380,7 +395,7 @@ func checkC11(c *core.Ctx) {
 
 func featureList(f map[string]bool) string {
 	var l []string
-	for _, k := range []string{"comment", "leading-zero", "underscore", "unicode", "long-line", "debug"} {
+	for _, k := range []string{"comment", "leading-zero", "underscore", "unicode", "long-line", "debug", "typed"} {
 		if f[k] {
 			l = append(l, k)
 		}
